@@ -54,6 +54,13 @@ func (env *rEnv) typeOf(n *rNode) types.Type {
 		if n.Text == "delivered" {
 			return env.e.feedEventNamed()
 		}
+		if n.Text == "callrecv" && len(n.Args) == 1 && n.Args[0].Op == "str" {
+			if fn := env.e.findByShort(n.Args[0].Text); fn != nil && len(fn.Params) > 0 {
+				if pt, ok := fn.Params[0].Type().Underlying().(*types.Pointer); ok {
+					return pt.Elem()
+				}
+			}
+		}
 		if n.Text == "callarg" && len(n.Args) == 2 && n.Args[0].Op == "str" {
 			if idx, ok := constIndex(env.eval(n.Args[1])); ok {
 				if fn := env.e.findByShort(n.Args[0].Text); fn != nil && idx < len(fn.Params) {
@@ -173,6 +180,18 @@ func (env *rEnv) call(n *rNode) Value {
 			}
 		}
 		return sym(IntLit(-1))
+	case "callrecv":
+		// callrecv("Short"): the receiver struct as it was when the last modular call to that function was made
+		if n.Args[0].Op == "str" {
+			for i := len(env.post.trace) - 1; i >= 0; i-- {
+				if env.post.trace[i].Kind == "call:"+n.Args[0].Text {
+					if sv, ok := env.post.trace[i].Extra.(VStruct); ok {
+						return sv
+					}
+				}
+			}
+			return env.fail("no call to %s on this path", n.Args[0].Text)
+		}
 	case "callret":
 		// callret("Short", i): i-th result of the last modular call to that function
 		if n.Args[0].Op == "str" {
@@ -558,13 +577,31 @@ func (env *rEnv) call(n *rNode) Value {
 		env.pol = savedPol
 		saved := map[string]Value{}
 		had := map[string]bool{}
+		savedT := map[string]types.Type{}
+		argTypes := make([]types.Type, len(n.Args))
+		for i, a := range n.Args {
+			argTypes[i] = env.typeOf(a)
+		}
 		for i, p := range sp.Params {
 			saved[p], had[p] = env.vars[p], false
 			if _, ok := env.vars[p]; ok {
 				had[p] = true
 			}
 			env.vars[p] = args[i]
+			savedT[p] = env.typs[p]
+			if argTypes[i] != nil {
+				env.typs[p] = argTypes[i]
+			}
 		}
+		defer func() {
+			for _, p := range sp.Params {
+				if savedT[p] != nil {
+					env.typs[p] = savedT[p]
+				} else {
+					delete(env.typs, p)
+				}
+			}
+		}()
 		env.depth++
 		v := env.eval(sp.Body)
 		env.depth--
